@@ -2286,7 +2286,15 @@ func (p *Parser) parseAssignExprOrParam() IExpr {
 		}
 		p.assumeArrowFunc = false
 		if tt == AsyncToken {
-			return p.parseAsyncExpression(OpAssign, data)
+			// this path does not pass parseExpression, which counts the nesting
+			p.exprLevel++
+			if NestedExprLimit < p.exprLevel {
+				p.failMessage("too many nested expressions")
+				return nil
+			}
+			left := p.parseAsyncExpression(OpAssign, data)
+			p.exprLevel--
+			return left
 		}
 		return p.parseIdentifierExpression(OpAssign, data)
 	} else if p.tt != OpenBracketToken && p.tt != OpenBraceToken {
